@@ -7,7 +7,9 @@ package main
 //                              chosen points, fed with the published messages;
 //                              observable: one token per published message
 //                              (`ok`, `slow`), the history ends at the first
-//                              `panic@site`.  A second output token carries the
+//                              `panic@site`; a history that ends normally appends
+//                              s=<audio codec known>/<video codec known>/<width>/<height>
+//                              (Group.GetStat).  The last output token carries the
 //                              largest per-message wall time (not compared).
 //   c05.ts / c05.rtsp / c05.dummy / c05.cls   the components driven directly,
 //                              with a precise observable (see each op).
@@ -204,6 +206,7 @@ func runC05Bcast(cfgTok, evTok string) (out string) {
 	ids := map[uint64]bool{}
 	var toks []string
 	var maxWall time.Duration
+	statTok := ""
 	finished := false
 	defer func() {
 		// teardown also runs lal code (Dispose flushes the audio cache): keep it observable
@@ -225,7 +228,7 @@ func runC05Bcast(cfgTok, evTok string) (out string) {
 		if len(toks) == 0 {
 			toks = []string{"-"}
 		}
-		out = strings.Join(toks, ",") + fmt.Sprintf(" t=%d", maxWall.Microseconds())
+		out = strings.Join(toks, ",") + statTok + fmt.Sprintf(" t=%d", maxWall.Microseconds())
 	}()
 
 	tryPlay := func() {
@@ -327,6 +330,9 @@ func runC05Bcast(cfgTok, evTok string) (out string) {
 			return "bad-event " + e
 		}
 	}
+	// the codec statistics the history left behind (delIn resets them)
+	st := group.GetStat(0)
+	statTok = fmt.Sprintf(" s=%s/%s/%x/%x", tokBool(st.AudioCodec != ""), tokBool(st.VideoCodec != ""), st.VideoWidth, st.VideoHeight)
 	// end of input: Dispose flushes the TS remuxer's audio cache through every TS output
 	group.DelRtmpPubSession(pubSession)
 	finished = true
